@@ -74,4 +74,35 @@ InCycle(d, t) == t \in TaskNames(d) /\ t \in ReachFrom(d, Succ(d, t), {})
 IsSplit(d, x) == ~IsJoin(d, x) /\ NPrev(d, x) > 1            \* engine commands included
 Reachable(d)  == ReachFrom(d, Roots(d), {})
 
+(* --- denotation of the abstract expression language ------------------------------------- *)
+EvalCond(c, st, res, ctx) ==                         \* "T" | "F" | "E"
+  LET b(x) == IF x THEN "T" ELSE "F" IN
+  CASE c.k = "always"    -> "T"
+    [] c.k = "succeeded" -> b(st = "succeeded")
+    [] c.k = "failed"    -> b(st = "failed")
+    [] c.k = "completed" -> b(st \in Completed)
+    [] c.k = "reseq"     -> b(res = IntV(c.n))
+    [] c.k = "lt"        -> IF c.v \in DOMAIN ctx /\ IsIntV(ctx[c.v]) THEN b(ctx[c.v][2] < c.n) ELSE "E"
+    [] c.k = "ge"        -> IF c.v \in DOMAIN ctx /\ IsIntV(ctx[c.v]) THEN b(ctx[c.v][2] >= c.n) ELSE "E"
+    [] OTHER             -> "E"
+
+EvalVal(e, res, ctx) ==                              \* value, or <<-1>> for an evaluation error
+  CASE e.k = "c"   -> IntV(e.n)
+    [] e.k = "res" -> res
+    [] e.k = "ctx" -> IF e.v \in DOMAIN ctx THEN ctx[e.v] ELSE <<-1>>
+    [] e.k = "inc" -> IF e.v \in DOMAIN ctx /\ IsIntV(ctx[e.v]) THEN IntV(ctx[e.v][2] + 1) ELSE <<-1>>
+    [] OTHER       -> <<-1>>
+
+RECURSIVE PubRoll(_, _, _, _)
+PubRoll(pub, i, res, ctx) ==                         \* rolling publish (models.py finalize_context)
+  IF i > Len(pub) THEN [ok |-> TRUE, ctx |-> ctx, new |-> << >>]
+  ELSE LET v == EvalVal(pub[i][2], res, ctx) IN
+       IF v = <<-1>>
+       THEN \* the failing entry is skipped, the remaining ones are still rendered (and all errors logged)
+            LET rest == PubRoll(pub, i + 1, res, ctx)
+            IN [ok |-> FALSE, ctx |-> rest.ctx, new |-> rest.new]
+       ELSE LET rest == PubRoll(pub, i + 1, res, (pub[i][1] :> v) @@ ctx)
+            IN [ok |-> rest.ok, ctx |-> rest.ctx, new |-> rest.new @@ (pub[i][1] :> v)]
+
+
 =============================================================================
